@@ -845,7 +845,7 @@ func (multi *MultiEpoch) processSlotTransactions(
 					return status.Errorf(codes.Internal, "Failed to parse transaction meta: %v", err)
 				}
 
-				if !filterOutTxn(*txn, meta) {
+				if filterOutTxn(*txn, meta) {
 
 					txResp := new(old_faithful_grpc.TransactionResponse)
 					txResp.Transaction = new(old_faithful_grpc.Transaction)
@@ -961,7 +961,7 @@ func (multi *MultiEpoch) processSlotTransactions(
 							return
 						}
 
-						if !filterOutTxn(tx, meta) {
+						if filterOutTxn(tx, meta) {
 							txResp := new(old_faithful_grpc.TransactionResponse)
 							txResp.Transaction = new(old_faithful_grpc.Transaction)
 							{
